@@ -583,7 +583,19 @@ impl RandGen {
                 }
             }
             14 => self.rng.pick(&prog).map(|&s| Op::TryUnwrap(s)),
-            15 => self.rng.pick(&prog).map(|&s| Op::MakeMut(s)),
+            15 => {
+                let &s = self.rng.pick(&prog)?;
+                let t = w.htarget[s];
+                if w.objs[t as usize].state == St::Alive && w.strong(t) != 1 && self.rng.chance(1, 4) {
+                    // the value's Clone fails; half of the time the program tries again
+                    self.pending.push_back(Op::MakeMut(s));
+                    if self.rng.chance(1, 2) {
+                        self.pending.push_back(Op::MakeMut(s));
+                    }
+                    return Some(Op::CloneBomb(t));
+                }
+                Some(Op::MakeMut(s))
+            }
             16 => self.rng.pick(&prog).map(|&s| Op::GetMut(s)),
             17 => self.rng.pick(&prog).map(|&s| Op::RawRound(s)),
             18 => {
@@ -656,6 +668,10 @@ impl RandGen {
                     let &this = self.rng.pick(&cands)?;
                     self.pending.push_back(Op::MakeMutIn(o, k));
                     return Some(Op::Unadopt(this, HRef::S(o, k)));
+                }
+                if will_clone && self.rng.chance(1, 4) {
+                    self.pending.push_back(Op::MakeMutIn(o, k));
+                    return Some(Op::CloneBomb(t));
                 }
                 Some(Op::MakeMutIn(o, k))
             }
